@@ -58,6 +58,7 @@ var c04Causes = map[string][]string{
 }
 
 func init() {
+	families["termnested"] = famTermNested
 	families["termination"] = famTermination
 	listers["C04"] = func(tier string, seed int64) []Case {
 		var out []Case
@@ -87,8 +88,109 @@ func init() {
 				}
 			}
 		}
+		// nested tunnels: the outer (or the inner) tunnel ends while the inner one carries the every-phase workload
+		nreps := 1
+		if tier == "thorough" {
+			nreps = 20
+		}
+		for r := 0; r < nreps; r++ {
+			for _, dir := range []string{"nested-ff", "nested-rf", "nested-fr", "nested-rr"} {
+				for _, cause := range []string{"inner-close", "outer-close", "root-cancel", "break", "outer-stop"} {
+					for _, fc := range []bool{true, false} {
+						cfg := WorldCfg{Dir: dir}
+						if !fc {
+							cfg.ClientNoFC, cfg.ServerNoFC = true, true
+						}
+						out = append(out, Case{Family: "termnested", Seed: rng.Int63(), Cfg: cfg, P: map[string]int{"steps": r % 4}, S: map[string]string{"cause": cause}})
+					}
+				}
+			}
+		}
 		return out
 	}
+}
+
+// famTermNested: the every-phase workload runs on the inner tunnel of a nested
+// topology; then the inner channel is closed, or the outer tunnel ends.
+func famTermNested(w *World, c *Case, rng *rand.Rand) {
+	if err := w.Open(nil); err != nil {
+		w.Violate("C11", "open-failed", "open: %v", err)
+		w.Finish()
+		return
+	}
+	cause := c.s("cause", "outer-close")
+	specs := phaseSpecs(w.Cfg.RevisionOne())
+	for i, s := range specs {
+		w.Env.StartRPC(context.Background(), w.Ch, s)
+		if i%2 == c.p("steps", 0)%2 {
+			w.Wait()
+		}
+	}
+	if c.p("steps", 0) > 1 {
+		w.Advance(time.Millisecond)
+	}
+	tc := w.TCh
+	clean := false
+	switch cause {
+	case "inner-close":
+		tc.Close()
+		clean = true
+	case "outer-close":
+		w.Outer.Close()
+	case "root-cancel":
+		w.RootCancel()
+	case "break":
+		w.Conn.Links()[0].Break()
+	case "outer-stop":
+		if len(w.RevSrvs) > 0 {
+			go w.RevSrvs[0].Stop()
+		} else {
+			w.Outer.Close()
+		}
+	}
+	w.Advance(time.Hour)
+	w.Stat("termination_nested_runs", 1)
+	select {
+	case <-tc.Done():
+	default:
+		w.Violate("C04", "done-not-closed:"+cause, "nested %s, cause %s: the inner channel's Done() is not closed an hour later", w.Cfg.Dir, cause)
+	}
+	if err := tc.Err(); clean && err != nil {
+		w.Violate("C04", "err-non-nil-after-clean-end:"+cause, "nested %s: Err() = %v after a local Close of the inner channel", w.Cfg.Dir, err)
+	} else if !clean && err == nil && !(cause == "outer-stop" && w.Cfg.Dir == "nested-rf") {
+		// (stopping the nested reverse server itself is a clean end of that tunnel)
+		w.Violate("C04", "err-nil-after-abnormal-end:"+cause, "nested %s, cause %s: the inner channel's Err() is nil although its carrier was torn down under it", w.Cfg.Dir, cause)
+	}
+	w.Env.Signal("never")
+	w.Advance(time.Second)
+	for _, r := range w.Env.Log.OpenOps() {
+		if r.K == "ctxwait" {
+			w.Violate("C04", "handler-ctx-not-cancelled:"+cause, "nested %s, cause %s: handler %s context was not cancelled", w.Cfg.Dir, cause, r.RPC)
+		} else {
+			w.Violate("C04", "op-hangs:"+r.Side+":"+r.K, "nested %s, cause %s: %s op %s[%d] of rpc %s still blocked an hour later", w.Cfg.Dir, cause, r.Side, r.K, r.Idx, r.RPC)
+		}
+	}
+	w.CheckDelivery()
+	t0 := w.VT()
+	var resp wrapperspb.BytesValue
+	errCh := make(chan error, 1)
+	go func() {
+		errCh <- w.Ch.Invoke(context.Background(), methodPath("Unary"), &wrapperspb.BytesValue{}, &resp)
+	}()
+	w.Wait()
+	select {
+	case err := <-errCh:
+		if err == nil {
+			w.Violate("C04", "rpc-on-dead-channel-succeeded", "nested %s, cause %s: an RPC started after the tunnel ended returned nil", w.Cfg.Dir, cause)
+		}
+		if w.VT() != t0 {
+			w.Violate("C04", "rpc-on-dead-channel-delayed", "nested %s, cause %s: an RPC started after the tunnel ended took %v to fail", w.Cfg.Dir, cause, w.VT()-t0)
+		}
+	default:
+		w.Violate("C04", "rpc-on-dead-channel-hangs", "nested %s, cause %s: an RPC started after the tunnel ended did not return", w.Cfg.Dir, cause)
+		w.Advance(time.Hour)
+	}
+	w.Finish()
 }
 
 // openWithRoot opens the world; if deadline > 0 the opening context has that deadline.
